@@ -179,15 +179,21 @@ package transport
 //@     each[C02] iter_calls(pollFull) == 1 ==> iter_arg(pollFull, 0, 0) == iter_ret(getQueueC, 0) && cap(iter_arg(pollFull, 0, 0)) >= 1
 //@     each[C07] iter_calls(Store) == 1 && iter_arg(Store, 0, 1) == false && iter_calls(SetReadDeadline) == 1
 
-//@ func (dc *TraditionalDnsConn) readResp [C01]
+// (C16) a TCP reply is framed directly off the connection itself: every byte the connection
+// delivers is consumed by exactly one frame (no per-call read-ahead buffer that could swallow the
+// beginning of the next frame).
+//@ func (dc *TraditionalDnsConn) readResp [C01, C16]
 //@   requires dc != nil
 //@   modifies *
+//@   ensures[C16] dc.isTcp ==> calls(ReadRawMsgFromTCP) == 1 && arg(ReadRawMsgFromTCP, 0, 0).val == dc.c.val && arg(ReadRawMsgFromTCP, 0, 0).tag == dc.c.tag && payload == ret(ReadRawMsgFromTCP, 0, 0) && err == ret(ReadRawMsgFromTCP, 0, 1)
+//@   ensures[C16] !dc.isTcp ==> calls(ReadRawMsgFromTCP) == 0
 //@   ensures (err == nil) == (payload != nil)
 //@   ensures err == nil ==> len(*payload) >= 12
 
 // readMsgUdp: datagrams shorter than a DNS header (fewer than 12 bytes) are skipped; the first
 // datagram of at least 12 bytes — a bare header is a valid, e.g. truncated, reply — is returned.
 //@ func readMsgUdp [C01, C17]
+//@   log readMsgUdp
 //@   requires r != nil
 //@   modifies *
 //@   ensures (result_1 == nil) == (result_0 != nil)
